@@ -207,6 +207,86 @@ def scriptClassify (tokens : List String) : Classification :=
         if seen.any scriptPlayback then allow (some "script -p (playback)") else ask "script interactive"
       else delegate (bashJoin command)
 
+/-! ### uv run -/
+
+/-- `_classify_uv_run`'s option loop over the words after `uv run` -/
+def uvRunSkip : Bool → List String → List String
+  | _, [] => []
+  | true, _ :: rest => uvRunSkip false rest
+  | false, t :: rest =>
+    if sw t "-" then
+      (if uv_RUN_FLAGS_WITH_ARG.contains t && !rest.isEmpty then uvRunSkip true rest else uvRunSkip false rest)
+    else t :: rest
+
+def uvRunClassify (tokens : List String) : Classification :=
+  match uvRunSkip false (tokens.drop 2) with
+  | [] => ask "uv run"
+  | first :: more => delegate (bashJoin (first :: more)) (some ("uv run " ++ first))
+
+/-! ### tar -/
+
+def tarOptionIs (t opt : String) : Bool := t == opt || sw t (opt ++ "=")
+
+/-- `_runs_other_program`: the first word that makes tar run a program of the caller's choosing -/
+def tarRunsOther : List String → Option String
+  | [] => none
+  | t :: rest =>
+    match tar_RUNS_PROGRAM_OPTIONS.find? (tarOptionIs t) with
+    | some opt => some opt
+    | none =>
+      if sw t "-" && !sw t "--" && (Py.hasChar t 'I' || Py.hasChar t 'F') then some t
+      else tarRunsOther rest
+
+/-- `_extract_to_commands` -/
+def tarToCommands : List String → List String
+  | [] => []
+  | t :: rest =>
+    if sw t "--to-command=" then dropS 13 t :: tarToCommands rest
+    else if t == "--to-command" then
+      (match rest with
+       | a :: _ => a :: tarToCommands rest
+       | [] => [])
+    else tarToCommands rest
+
+def tarShortOp (t : String) : Option String :=
+  (tar_OPERATIONS.find? (fun kv => Py.hasChar t (kv.1.toList.headD ' '))).map (·.2)
+
+/-- the loop of `_detect_operation` over `tokens[1:]` -/
+def tarDetectLoop : List String → Option String
+  | [] => none
+  | t :: rest =>
+    if t == "--create" then some "create"
+    else if t == "--extract" || t == "--get" then some "extract"
+    else if t == "--append" then some "append"
+    else if t == "--update" then some "update"
+    else if t == "--list" then some "list"
+    else if t == "--delete" then some "delete"
+    else if sw t "-" && !sw t "--" then
+      (match tarShortOp t with
+       | some op => some op
+       | none => tarDetectLoop rest)
+    else tarDetectLoop rest
+
+def tarDetect (tokens : List String) : Option String :=
+  match tarDetectLoop (tokens.drop 1) with
+  | some op => some op
+  | none =>
+    match tokens.drop 1 with
+    | first :: _ => if !sw first "-" then tarShortOp first else none
+    | [] => none
+
+def tarClassify (tokens : List String) : Classification :=
+  let base := tokens.headD "tar"
+  match tarRunsOther (tokens.drop 1) with
+  | some other => ask (base ++ " " ++ other)
+  | none =>
+    let cmds := (tarToCommands (tokens.drop 1)).filter (fun c => !c.isEmpty)
+    if !cmds.isEmpty then delegate ("\n".intercalate cmds) (some (base ++ " --to-command"))
+    else match tarDetect tokens with
+      | some "list" => allow (some (base ++ " list"))
+      | some op => ask (base ++ " " ++ op)
+      | none => ask base
+
 /-! ### docker exec / kubectl exec: the words after the container -/
 
 /-- `_cluster_takes_next`: a short cluster whose first argument-taking flag is its last character -/
